@@ -107,13 +107,93 @@ class Fn:
         return "<Fn %s:%s>" % (self.module.name, self.qualname)
 
 
+_NOT_INLINABLE = (ast.Call, ast.Lambda, ast.ListComp, ast.SetComp, ast.DictComp, ast.GeneratorExp, ast.NamedExpr, ast.Starred,
+                  ast.Yield, ast.YieldFrom, ast.Await, ast.JoinedStr)
+
+
+def inline_adjacent_temps(tree):
+    """Normalisation applied to every module before analysis: a local that is assigned once from a
+    call-free expression and read exactly once, by the *immediately following* statement, is replaced by
+    its expression (``t = a.b; f(t)`` is analysed as ``f(a.b)``).  This makes every rule insensitive to
+    single-use alias temporaries; multi-use aliases are handled by ``dataflow.expand`` inside the rules."""
+    from .dataflow import header_exprs
+
+    def process_function(fnode):
+        stores, loads = {}, {}
+        for n in ast.walk(fnode):
+            if isinstance(n, ast.Name):
+                d = stores if isinstance(n.ctx, (ast.Store, ast.Del)) else loads
+                d[n.id] = d.get(n.id, 0) + 1
+            elif isinstance(n, ast.arg):
+                stores[n.arg] = stores.get(n.arg, 0) + 2
+            elif isinstance(n, (ast.Global, ast.Nonlocal)):
+                for x in n.names:
+                    stores[x] = stores.get(x, 0) + 2
+
+        def process_block(block):
+            i = 0
+            while i + 1 < len(block):
+                st, nxt = block[i], block[i + 1]
+                done = False
+                if isinstance(st, ast.Assign) and len(st.targets) == 1 and isinstance(st.targets[0], ast.Name):
+                    t = st.targets[0].id
+                    if stores.get(t, 0) == 1 and loads.get(t, 0) == 1 and not any(isinstance(x, _NOT_INLINABLE) for x in ast.walk(st.value)) \
+                            and not isinstance(st.value, (ast.Constant, ast.List, ast.Dict, ast.Set, ast.Tuple)):
+                        for e in header_exprs(nxt) + ([tg for tg in nxt.targets] if isinstance(nxt, ast.Assign) else []):
+                            for par in ast.walk(e):
+                                if isinstance(par, ast.Lambda):
+                                    continue
+                                for fld, val in ast.iter_fields(par):
+                                    if isinstance(val, ast.Name) and val.id == t and isinstance(val.ctx, ast.Load):
+                                        setattr(par, fld, st.value)
+                                        done = True
+                                    elif isinstance(val, list):
+                                        for k, x in enumerate(val):
+                                            if isinstance(x, ast.Name) and x.id == t and isinstance(x.ctx, ast.Load):
+                                                val[k] = st.value
+                                                done = True
+                            if not done and isinstance(e, ast.Name) and e.id == t and isinstance(e.ctx, ast.Load):
+                                # the whole header expression is the temporary
+                                for fld, val in ast.iter_fields(nxt):
+                                    if val is e:
+                                        setattr(nxt, fld, st.value)
+                                        done = True
+                                    elif isinstance(val, list):
+                                        for k, x in enumerate(val):
+                                            if x is e:
+                                                val[k] = st.value
+                                                done = True
+                if done:
+                    del block[i]
+                    loads[t] = 0
+                    if i > 0:
+                        i -= 1
+                else:
+                    i += 1
+            for st in block:
+                if isinstance(st, (ast.FunctionDef, ast.AsyncFunctionDef, ast.ClassDef)):
+                    continue
+                for fld in ("body", "orelse", "finalbody"):
+                    sub = getattr(st, fld, None)
+                    if isinstance(sub, list) and sub and isinstance(sub[0], ast.stmt):
+                        process_block(sub)
+                for h in getattr(st, "handlers", []) or []:
+                    process_block(h.body)
+        process_block(fnode.body)
+
+    for n in ast.walk(tree):
+        if isinstance(n, (ast.FunctionDef, ast.AsyncFunctionDef)):
+            process_function(n)
+    return tree
+
+
 class Module:
     def __init__(self, name, path, relpath, src):
         self.name = name
         self.path = path
         self.relpath = relpath
         self.src = src
-        self.tree = ast.parse(src, filename=path)
+        self.tree = inline_adjacent_temps(ast.parse(src, filename=path))
         self.imports = {}      # local name -> (module, attr or None)
         self.star_imports = []
         self._scan_imports()
